@@ -27,6 +27,7 @@ struct Log {
 	std::string buf;
 	bool on = true;			// ordinary events are recorded
 	bool cur = true;		// the line being written is recorded
+	std::string pending;	// complete lines produced while another line was being composed (assertion hits)
 	uint64_t lines = 0;
 
 	// violation / assertion / summary lines are always recorded
@@ -40,7 +41,7 @@ struct Log {
 	}
 	void s(const char* str) { if (cur) { buf.push_back(' '); buf += str; } }
 	void s(const std::string& str) { if (cur) { buf.push_back(' '); buf += str; } }
-	void nl() { if (cur) { buf.push_back('\n'); ++lines; if (buf.size() > (1u << 16)) flush(); } }
+	void nl() { if (cur) { buf.push_back('\n'); ++lines; } if (!pending.empty() && (buf.empty() || buf.back() == '\n')) { buf += pending; pending.clear(); } if (buf.size() > (1u << 16)) flush(); }
 	void flush() { if (f && !buf.empty()) fwrite(buf.data(), 1, buf.size(), f); buf.clear(); }
 };
 
